@@ -92,6 +92,9 @@ var c01BadTemplates = map[string]string{
 	"bad_func":    "x{{ boom(1) }}y",
 	"bad_parent":  "{% extends 'base' %}{% block title %}{{ boom(2) }}{% endblock %}",
 	"bad_macro":   "{% import 'lib' as l %}{{ l.nomacro() }}",
+	"bad_with":    "x{% include 'part' with {'pv': boom(3)} %}y{% include 'part' %}",
+	"bad_withdiv": "{% for i in [1, 2] %}{% include 'part' with {'pv': i / 0} only %}{% endfor %}",
+	"bad_only":    "{% include 'part' with {'pv': nosuchfunction()} only %}",
 }
 
 // c01Twins: groups of small self-contained templates that differ in one detail a lossy memo key could drop (regex flags,
